@@ -259,6 +259,7 @@ Proof.
     apply (IH lb (la mod lb) m a); [lia | lia | exact Hg |].
     pose proof (requirement_covers 0 0 (la mod lb) ltac:(lia)) as N. cbn [dsame] in N.
     (* the requirement is monotone: it covers dsame of every smaller length, in particular of la mod lb *)
+    assert (0 <= a) as Ha0 by (destruct Hg as (_ & _ & _ & Hg4 & _); exact Hg4).
     unfold gen_mul_requirement in *.
     destruct (Z.leb_spec (la mod lb) gen_mul_threshold_simple); [lia|].
     assert (Z.log2_up (la mod lb) <= Z.log2_up lb) by (apply Z.log2_up_le_mono; lia).
